@@ -15,7 +15,7 @@ Definition abstract (rows : list nat) (sd : setdata) : list nat := diff rows (sd
      setdata.is_fully_loaded = True; setdata.absent = None; setdata.count = len(setdata)            (its OWN length) *)
 Definition load_full (rows : list nat) (sd : setdata) : setdata :=
   let items' := sd_items sd ++ diff (diff rows (sd_items sd)) (sd_removed sd) in
-  mksd items' true (sd_added sd) (sd_removed sd) None (Some (length items')).
+  mksd items' true (sd_added sd) (sd_removed sd) None (Some (Z.of_nat (length items'))).
 
 (* a batch (nplus1 prefetching, prefetch_load_all): every collection of the batch gets its own rows *)
 Definition load_batch (batch : list (list nat * setdata)) : list setdata := map (fun rs => load_full (fst rs) (snd rs)) batch.
@@ -49,10 +49,10 @@ Definition do_copy (rows : list nat) (sd : setdata) : list nat * (list nat * set
        let sd2 := load_full rows1 sd1 in (sd_items sd2, (rows1, sd2)).
 
 (* count(): known -> return it; else SELECT COUNT under flush_disabled, corrected by the pending changes *)
-Definition do_count (rows : list nat) (sd : setdata) : nat * setdata :=
+Definition do_count (rows : list nat) (sd : setdata) : Z * setdata :=
   match sd_count sd with
   | Some n => (n, sd)
-  | None => let n := length rows + length (sd_added sd) - length (sd_removed sd) in
+  | None => let n := (Z.of_nat (length rows) + Z.of_nat (length (sd_added sd)) - Z.of_nat (length (sd_removed sd)))%Z in
             (n, mksd (sd_items sd) (sd_full sd) (sd_added sd) (sd_removed sd) (sd_absent sd) (Some n))
   end.
 
@@ -75,12 +75,12 @@ Definition do_is_empty (first : list nat -> option nat) (rows : list nat) (sd : 
   else match sd_items sd with
        | _ :: _ => (false, (rows, sd))
        | [] => match sd_count sd with
-               | Some n => (Nat.eqb n 0, (rows, sd))
+               | Some n => (Z.eqb n 0, (rows, sd))
                | None =>
                    let (rows1, sd1) := autoflush rows sd in
                    match first rows1 with
                    | Some r => (false, (rows1, mksd [r] (sd_full sd1) (sd_added sd1) (sd_removed sd1) (sd_absent sd1) (sd_count sd1)))
-                   | None => (true, (rows1, mksd [] true (sd_added sd1) (sd_removed sd1) None (Some 0)))
+                   | None => (true, (rows1, mksd [] true (sd_added sd1) (sd_removed sd1) None (Some 0%Z)))
                    end
                end
        end.
@@ -97,6 +97,44 @@ Definition do_remove (x : nat) (rows : list nat) (sd : setdata) : setdata :=
   else let sd1 := if sd_full sd then sd else load_for rows [x] sd in
        if memn x (sd_items sd1) then sd_remove sd1 x else sd1.
 
+(* ---- one-to-many collections (g.students / s.group): the SetData part of Set.load is the same code (load_full, do_copy, do_count,
+   do_is_empty apply as they are: fetched items whose reference was re-pointed in this session are not merged, which is what
+   `items -= removed` expresses).  What differs: Set.load(obj, items) asks only for items whose reference attribute is not loaded
+   yet (loaded x = `reverse in item._vals_`), membership is answered from the item's own attribute, and add / remove go through
+   Attribute.__set__ of the item (reverse_add / reverse_remove on this SetData). *)
+Definition load_for_o (loaded : nat -> bool) (rows xs : list nat) (sd : setdata) : setdata :=
+  match filter (fun y => negb (loaded y)) xs with
+  | [] => sd
+  | ask => match sd_items sd with
+           | [] => mksd (filter (fun y => memn y rows && negb (memn y (sd_removed sd))) ask) (sd_full sd) (sd_added sd) (sd_removed sd) (sd_absent sd) (sd_count sd)
+           | _ => load_full rows sd
+           end
+  end.
+
+Definition do_add_o (loaded : nat -> bool) (x : nat) (rows : list nat) (sd : setdata) : setdata :=
+  if memn x (sd_items sd) then (if sd_full sd then sd else load_full rows sd)
+  else let sd1 := if sd_full sd then sd else load_for_o loaded rows [x] sd in
+       if memn x (sd_items sd1) then sd1 else sd_add sd1 x.
+
+(* SetInstance.remove on a one-to-many collection AS THE CODE IS: reverse.__set__(item, None) already updates this SetData through
+   reverse_remove (item out, count - 1, added / removed), and then remove()'s common tail does it a second time:
+   count - 1 again, and the item is put into `removed` even when it had only been added in this session (recorded finding). *)
+Definition sd_remove_o (sd : setdata) (x : nat) : setdata :=
+  let sd1 := sd_remove sd x in
+  mksd (sd_items sd1) (sd_full sd1) (sd_added sd1)
+       (if memn x (sd_removed sd1) then sd_removed sd1 else x :: sd_removed sd1) (sd_absent sd1) (option_map Z.pred (sd_count sd1)).
+
+Definition do_remove_o (loaded : nat -> bool) (x : nat) (rows : list nat) (sd : setdata) : setdata :=
+  if memn x (sd_removed sd) then sd
+  else let sd1 := if sd_full sd then sd else load_for_o loaded rows [x] sd in
+       if memn x (sd_items sd1) then sd_remove_o sd1 x else sd1.
+
+(* the same with the tail skipped for one-to-many collections (proposed_fixes/C23-one-to-many-remove-bookkeeping.diff) *)
+Definition do_remove_o_fixed (loaded : nat -> bool) (x : nat) (rows : list nat) (sd : setdata) : setdata :=
+  if memn x (sd_removed sd) then sd
+  else let sd1 := if sd_full sd then sd else load_for_o loaded rows [x] sd in
+       if memn x (sd_items sd1) then sd_remove sd1 x else sd1.
+
 (* ---- invariant, as a boolean for the correspondence run and as the hypothesis of the theorems *)
 Fixpoint nodupb (l : list nat) : bool := match l with [] => true | x :: r => negb (memn x r) && nodupb r end.
 Definition subsetb (a b : list nat) : bool := forallb (fun x => memn x b) a.
@@ -108,10 +146,10 @@ Definition inv_b (rows : list nat) (sd : setdata) : bool :=
   subsetb (sd_removed sd) rows &&
   (negb (sd_full sd) || subsetb (abstract rows sd) (sd_items sd)) &&
   match sd_absent sd with Some a => forallb (fun x => memn x (sd_items sd) || negb (memn x (abstract rows sd))) a | None => true end &&
-  match sd_count sd with Some n => Nat.eqb n (length (abstract rows sd)) | None => true end.
+  match sd_count sd with Some n => Z.eqb n (Z.of_nat (length (abstract rows sd))) | None => true end.
 
 Definition same_elems (a b : list nat) : bool := subsetb a b && subsetb b a.
-Definition optn_eqb (a b : option nat) : bool := match a, b with None, None => true | Some x, Some y => Nat.eqb x y | _, _ => false end.
+Definition optn_eqb (a b : option Z) : bool := match a, b with None, None => true | Some x, Some y => Z.eqb x y | _, _ => false end.
 (* comparison of a model SetData with a recorded one (absent is compared through inv_b only) *)
 Definition sd_same (a b : setdata) : bool :=
   same_elems (sd_items a) (sd_items b) && Bool.eqb (sd_full a) (sd_full b) && same_elems (sd_added a) (sd_added b) &&
